@@ -12,6 +12,9 @@ def classify(res, scs, reps, mons):
         for x, p, code in mo['replay']:
             sig = 'C11/missed' if code == 8 else 'C11/not-exactly-once'
             res.violations.append(dict(signature=sig, what='%s: subscription %d, message %d' % (G.VNAME[code], x, p), case=G.readable(sc, mo['hist'])))
+        for i, code in mo['content']:
+            if code == 5:
+                res.violations.append(dict(signature='C11/replayed-content-differs', what='persistent mode: a delivered/replayed copy differs from the message that was published (UUID/payload/metadata)', case=G.readable(sc, mo['hist'], upto=i)))
         late = sum(1 for s in sc['subs'] if s['start_at'] > 0)
         res.count('late subscriptions', late)
 
